@@ -3,7 +3,9 @@ import k2check
 
 
 def run(tier):
-    return k2check.run("C17", tier, profile="functors")
+    return k2check.run("C17", tier, profile="functors",
+                       k3_programs=["same-key-upsert-during-displacement", "same-key-upsert-during-displacement-hp3",
+                                    "same-key-inserters", "expand-vs-updates", "displace-vs-update"])
 
 
 def replay(path):
